@@ -17,6 +17,7 @@ import VaxisModel.Lemmas.EmuBodyPrint
 import VaxisModel.Lemmas.EmuBodyTabs
 import VaxisModel.Lemmas.EmuBodyModes
 import VaxisModel.Lemmas.EmuBodyReflow
+import VaxisModel.Lemmas.EmuBodySgr
 import VaxisModel.Lemmas.EmuSafe1
 
 namespace VaxisModel.Props.C05Bodies
@@ -203,6 +204,12 @@ theorem body_decrst (e : Emu) (pm : List Param) :
     evalBody TermBodies.body_decrst pm [] e = decrst e pm := body_decrst_eq e pm
 /-- decrqm() (mode.go): every arm only computes the reply; the emulator state is untouched (what the dispatcher of the model assumes). -/
 theorem body_decrqm (e : Emu) (pd : Int) : evalBody TermBodies.body_decrqm [] [pd] e = .ok e := body_decrqm_eq e pd
+
+/-- sgr() (sgr.go): for EVERY pen and EVERY parameter list — any length (the empty list is `[[0]]`), any sub-parameters, every case label
+    (attribute bits through the regenerated `attr*` constants, the six underline styles, the 8+8 indexed colours, `uint8` truncation), the
+    legacy forms `38;5;n` / `38;2;r;g;b` with their `i += 2/4`, the colon forms with 3 / 5 / 6 sub-parameters, and every malformed form (the
+    `return`s), with the index expressions `params[i+1][0]`, `params[i][1]` … as checked accesses. -/
+theorem body_sgr (e : Emu) (pm : List Param) : evalBody TermBodies.body_sgr pm [] e = sgr e pm := body_sgr_eq e pm
 
 /-! ### coverage -/
 
